@@ -8,14 +8,17 @@
    Complex Hermitian systems are covered through their realification (done by the harness).
    The model is tied to /repo/src/mrpro/algorithms/optimizers/cg.py on every run by harness/props/C06.py.
 
-   Not proved (hence the suffix _partial): that span{p_0..p_(k-1)} equals the Krylov space span{r0, H r0, .., H^(k-1) r0}
-   (optimality is stated over the span of the step directions, which are observable as x_(j+1) - x_j), and
-   "the solution is reached within n iterations" (a dimension argument); both are checked on the implementation by
-   the oracle of harness/props/C06.py for every generated system. "Inputs untouched" holds by construction of
-   the functional model (nothing is written); the run-time side is checked by the harness (values and ._version). *)
+   Full since the extension round: the span of the step directions IS the Krylov space span{r0, H r0, .., H^(k-1) r0}
+   (both inclusions), x_k lies in x0 + K_k and minimises the H-norm error over x0 + K_k (C06_krylov, C06_optimal);
+   with tolerance 0 and a budget >= n the run ends with <r,r> = 0 (C06_within_n; via: at most n mutually orthogonal
+   vectors with <v,v> <> 0 in F^n, C06_orthogonal_family_bound); the realification used by the harness for complex
+   Hermitian systems (C06_realify_*).  Over an abstract field "<r,r> = 0" is the code's own notion of a zero residual; in
+   an ordered field (Qc, R) it means r = 0, i.e. H x = b (this last step is not formalised).
+   "Inputs untouched" holds by construction of the functional model (nothing is written); the run-time side is checked
+   by the harness (values and ._version).  Floating-point rounding ("to working precision") is outside the model. *)
 From Coq Require Import List Bool Arith Field QArith Qcanon.
 Import ListNotations.
-From MrVerif Require Import Model.CG Proofs.CGProofs Proofs.CGProofsInst.
+From MrVerif Require Import Model.CG Proofs.CGProofs Proofs.CGProofsInst Proofs.CGProofsRealify.
 
 Section Generic.
   Variable F : Type.
@@ -80,11 +83,11 @@ Section Generic.
   Qed.
 
   (* (2c) ordered field, H self-adjoint and positive semi-definite, xs any solution of H xs = b:
-     x_k lies in x0 + span{p_0..p_(k-1)} and minimises the H-norm error over x_k + span{p_0..p_(k-1)}
-     (Pythagoras: the error grows by exactly <d,Hd>).  partial: see the header. *)
+     x_k lies in x0 + span{p_0..p_(k-1)} and moving away from x_k inside the span of the directions adds exactly <d,Hd> to
+     the squared H-norm error (Pythagoras), in the coefficient-list formulation; the statement over the Krylov space is C06_optimal *)
   Variable fle : F -> F -> Prop.
   Hypothesis fle_add_nonneg : forall a c, fle f0 c -> fle a (fadd a c).
-  Theorem C06_optimal_partial : linear -> self_adjoint -> (forall d, fle f0 << d, Hop d >>) ->
+  Theorem C06_pythagoras : linear -> self_adjoint -> (forall d, fle f0 << d, Hop d >>) ->
     forall xs b x0 m res h h1 s h2, RUN b x0 m = (res, h) -> h = h1 ++ s :: h2 -> Hop xs = b ->
     (exists cs, sx s = sx (INIT b x0) +v lincomb F fadd fmul cs (rev (map sp (h1 ++ [s])))) /\
     forall cs, let d := lincomb F fadd fmul cs (map sp (h1 ++ [s])) in
@@ -105,6 +108,52 @@ Section Generic.
     intros [Ha Hsc] Hs Hp xs b x0 m res h l1 s s' l2 Hr Hh Hb.
     exact (cg_monotone F _ _ _ _ _ _ _ _ Fth feqb fltb feqb_spec Hop Ha Hsc tol Hs _ xs fle fle_add_nonneg Hp b x0 m res h l1 s s' l2 eq_refl Hr Hh Hb).
   Qed.
+
+  (* ---- vectors of F^n: Krylov space, optimality over x0 + K_k, termination within n steps ---- *)
+  Notation SPAN n := (span F f0 fadd fmul n).
+  Notation KRY := (kry F Hop).
+  Notation R0 b x0 := (sr (INIT b x0)).
+
+  (* (2e) the span of the directions p_0..p_(k-1) equals the Krylov space span{r0, H r0, .., H^(k-1) r0}, k = iterations so far *)
+  Theorem C06_krylov : linear -> self_adjoint -> forall n, (forall u, length (Hop u) = n) ->
+    forall b x0 m res h, length b = n -> length (sx (INIT b x0)) = n -> RUN b x0 m = (res, h) ->
+    forall h1 s h2, h = h1 ++ s :: h2 ->
+    forall v, SPAN n (map sp (h1 ++ [s])) v <-> SPAN n (KRY (R0 b x0) (length (h1 ++ [s]))) v.
+  Proof.
+    intros [Ha Hsc] Hs n Hl b x0 m res h Hb Hx Hr h1 s h2 Hh.
+    assert (Hr0 : length (R0 b x0) = n).
+    { unfold cg_init. cbn [sr]. rewrite (length_vsub F _ _ _ _ _ _ _ _ Fth), Hl, Hb. apply Nat.max_id. }
+    exact (cg_krylov F _ _ _ _ _ _ _ _ Fth feqb fltb feqb_spec Hop Ha Hsc tol n Hl Hs _ (R0 b x0) Hr0 b x0 m res h eq_refl Hx Hb eq_refl Hr h1 s h2 Hh).
+  Qed.
+
+  (* (2f) THE optimality statement of C06: x_k lies in x0 + K_k and minimises the H-norm error over x0 + K_k *)
+  Theorem C06_optimal : linear -> self_adjoint -> (forall d, fle f0 << d, Hop d >>) -> forall n, (forall u, length (Hop u) = n) ->
+    forall xs b x0 m res h, length b = n -> length (sx (INIT b x0)) = n -> RUN b x0 m = (res, h) -> Hop xs = b ->
+    forall h1 s h2, h = h1 ++ s :: h2 ->
+    (exists d, SPAN n (KRY (R0 b x0) (length (h1 ++ [s]))) d /\ sx s = sx (INIT b x0) +v d) /\
+    forall d, SPAN n (KRY (R0 b x0) (length (h1 ++ [s]))) d -> fle (ERR xs (sx s)) (ERR xs (sx (INIT b x0) +v d)).
+  Proof.
+    intros [Ha Hsc] Hs Hp n Hl xs b x0 m res h Hb Hx Hr Hxs h1 s h2 Hh.
+    assert (Hr0 : length (R0 b x0) = n).
+    { unfold cg_init. cbn [sr]. rewrite (length_vsub F _ _ _ _ _ _ _ _ Fth), Hl, Hb. apply Nat.max_id. }
+    split.
+    - exact (cg_iterate_in_krylov F _ _ _ _ _ _ _ _ Fth feqb fltb feqb_spec Hop Ha Hsc tol n Hl Hs _ (R0 b x0) Hr0 b x0 m res h eq_refl Hx Hb eq_refl Hr h1 s h2 Hh).
+    - exact (cg_optimal_krylov F _ _ _ _ _ _ _ _ Fth feqb fltb feqb_spec Hop Ha Hsc tol n Hl Hs _ xs fle fle_add_nonneg Hp (R0 b x0) Hr0 b x0 m res h h1 s h2 eq_refl Hx Hb eq_refl Hr Hh Hxs).
+  Qed.
+
+  (* (2g) tolerance 0 and budget >= n: the run ends with <r,r> = 0 for the returned x (no division by zero for definite H) *)
+  Theorem C06_within_n : linear -> self_adjoint -> forall n, (forall u, length (Hop u) = n) ->
+    (forall u w, length u = n -> length w = n -> << u, w >> <> f0 -> << u, Hop u >> <> f0) ->
+    tol = f0 -> forall b x0 m, length b = n -> (n <= m)%nat ->
+    exists y h, RUN b x0 m = (Some y, h) /\ << b -v Hop y, b -v Hop y >> = f0.
+  Proof.
+    intros [Ha Hsc] Hs n Hl Hdef Ht b x0 m Hb Hnm.
+    pose proof (cg_run_finite F _ _ _ _ _ _ _ _ Fth feqb fltb feqb_spec Hop tol n Hl Hdef b x0 m Hb) as Hfin.
+    destruct (RUN b x0 m) as [[y|] h] eqn:Er; [|cbn in Hfin; congruence]. exists y, h. split; [reflexivity|].
+    assert (Hr0 : length (R0 b x0) = n).
+    { unfold cg_init. cbn [sr]. rewrite (length_vsub F _ _ _ _ _ _ _ _ Fth), Hl, Hb. apply Nat.max_id. }
+    exact (cg_exact_within_n F _ _ _ _ _ _ _ _ Fth feqb fltb feqb_spec Hop Ha Hsc tol n Hl Hs _ (R0 b x0) Hr0 b x0 m y h Ht Hnm Hb eq_refl Er).
+  Qed.
 End Generic.
 Print Assumptions C06_residual.
 Print Assumptions C06_iteration_numbers.
@@ -113,8 +162,55 @@ Print Assumptions C06_fixed_point_start.
 Print Assumptions C06_fixed_point_loop.
 Print Assumptions C06_conjugate.
 Print Assumptions C06_orthogonal.
-Print Assumptions C06_optimal_partial.
+Print Assumptions C06_pythagoras.
 Print Assumptions C06_monotone.
+Print Assumptions C06_krylov.
+Print Assumptions C06_optimal.
+Print Assumptions C06_within_n.
+
+(* at most d mutually orthogonal vectors with <v,v> <> 0 in F^d (any field): the dimension argument behind C06_within_n *)
+Theorem C06_orthogonal_family_bound : forall (F : Type) (f0 f1 : F) fadd fmul fsub fopp fdiv finv,
+  field_theory f0 f1 fadd fmul fsub fopp fdiv finv (@eq F) ->
+  forall feqb : F -> F -> bool, (forall a b, feqb a b = true <-> a = b) ->
+  forall d (vs : list (list F)), Forall (fun v => length v = d) vs ->
+  ForallOrdPairs (fun u v => dot F f0 fadd fmul u v = f0) vs -> Forall (fun v => dot F f0 fadd fmul v v <> f0) vs ->
+  (length vs <= d)%nat.
+Proof.
+  intros F f0 f1 fadd fmul fsub fopp fdiv finv Fth feqb Hspec.
+  exact (orthogonal_family_bound F f0 f1 fadd fmul fsub fopp fdiv finv Fth feqb feqb Hspec 0%nat [] eq_refl).
+Qed.
+Print Assumptions C06_orthogonal_family_bound.
+
+(* realification of a complex Hermitian system H = A + iB (z = x + iy -> x ++ y, H -> [[A,-B],[B,A]]): what the harness does *)
+Theorem C06_realify_matvec : forall (F : Type) (f0 f1 : F) fadd fmul fsub fopp fdiv finv,
+  field_theory f0 f1 fadd fmul fsub fopp fdiv finv (@eq F) ->
+  forall n A B z, rows_ok F n A -> rows_ok F n B -> length A = length B -> length (fst z) = n ->
+  matvec F f0 fadd fmul (realify_mat F fopp A B) (realify F z) = realify F (cmatvec F f0 fadd fmul fsub fopp A B z).
+Proof. exact realify_matvec. Qed.
+Print Assumptions C06_realify_matvec.
+Theorem C06_realify_inner : forall (F : Type) (f0 f1 : F) fadd fmul fsub fopp fdiv finv,
+  field_theory f0 f1 fadd fmul fsub fopp fdiv finv (@eq F) ->
+  forall z w : list F * list F, length (fst z) = length (fst w) ->
+  dot F f0 fadd fmul (realify F z) (realify F w) = cdot_re F f0 fadd fmul z w.
+Proof. exact realify_inner. Qed.
+Print Assumptions C06_realify_inner.
+Theorem C06_realify_self_adjoint : forall (F : Type) (f0 f1 : F) fadd fmul fsub fopp fdiv finv,
+  field_theory f0 f1 fadd fmul fsub fopp fdiv finv (@eq F) ->
+  forall n A B, rows_ok F n A -> rows_ok F n B -> length A = n -> length B = n -> hermitian F f0 fadd fmul fopp n A B ->
+  forall z w, length (fst z) = n -> length (snd z) = n -> length (fst w) = n -> length (snd w) = n ->
+  dot F f0 fadd fmul (realify F z) (matvec F f0 fadd fmul (realify_mat F fopp A B) (realify F w))
+  = dot F f0 fadd fmul (matvec F f0 fadd fmul (realify_mat F fopp A B) (realify F z)) (realify F w).
+Proof. exact realify_self_adjoint. Qed.
+Print Assumptions C06_realify_self_adjoint.
+Theorem C06_realify_alpha_real : forall (F : Type) (f0 f1 : F) fadd fmul fsub fopp fdiv finv,
+  field_theory f0 f1 fadd fmul fsub fopp fdiv finv (@eq F) ->
+  forall n A B, rows_ok F n A -> rows_ok F n B -> length A = n -> length B = n -> hermitian F f0 fadd fmul fopp n A B ->
+  fadd f1 f1 <> f0 -> forall p, length (fst p) = n -> length (snd p) = n ->
+  cdot_im F f0 fadd fmul fsub p (cmatvec F f0 fadd fmul fsub fopp A B p) = f0 /\
+  cdot_re F f0 fadd fmul p (cmatvec F f0 fadd fmul fsub fopp A B p)
+  = dot F f0 fadd fmul (realify F p) (matvec F f0 fadd fmul (realify_mat F fopp A B) (realify F p)).
+Proof. exact realify_alpha_real. Qed.
+Print Assumptions C06_realify_alpha_real.
 
 (* ---- the same statements for the instance that is executed against the implementation (cgQ) ---- *)
 Theorem C06_residual_Qc : forall M tol b x0 n x r k trace res,
@@ -126,11 +222,19 @@ Theorem C06_finite_Qc : forall n M tol b x0 m trace, length M = n -> pdQ n M -> 
 Proof. exact cgQ_finite. Qed.
 Print Assumptions C06_finite_Qc.
 
-Theorem C06_optimal_Qc_partial : forall M tol xs b x0 m res h h1 s h2, symQ M -> psdQ M ->
+Theorem C06_optimal_Qc : forall n M tol xs b x0 m res h h1 s h2, length M = n -> symQ M -> psdQ M ->
+  length b = n -> length (sx (initQ M b x0)) = n ->
   runQ M tol b x0 m = (res, h) -> h = h1 ++ s :: h2 -> mvQ M xs = b ->
-  forall cs, (errHQ M xs (sx s) <= errHQ M xs (vaddQ (sx s) (lincomb Qc Qcplus Qcmult cs (map sp (h1 ++ [s])))))%Qc.
-Proof. exact cgQ_optimal. Qed.
-Print Assumptions C06_optimal_Qc_partial.
+  (exists d, spanQ n (kryQ M (sr (initQ M b x0)) (length (h1 ++ [s]))) d /\ sx s = vaddQ (sx (initQ M b x0)) d) /\
+  forall d, spanQ n (kryQ M (sr (initQ M b x0)) (length (h1 ++ [s]))) d ->
+    (errHQ M xs (sx s) <= errHQ M xs (vaddQ (sx (initQ M b x0)) d))%Qc.
+Proof. exact cgQ_optimal_krylov. Qed.
+Print Assumptions C06_optimal_Qc.
+
+Theorem C06_within_n_Qc : forall n M b x0 m, length M = n -> symQ M -> pdQ n M -> length b = n -> (n <= m)%nat ->
+  exists y h, runQ M (Q2Qc 0) b x0 m = (Some y, h) /\ dotQ (vsubQ b (mvQ M y)) (vsubQ b (mvQ M y)) = Q2Qc 0.
+Proof. exact cgQ_within_n. Qed.
+Print Assumptions C06_within_n_Qc.
 
 Theorem C06_monotone_Qc : forall M tol xs b x0 m res h l1 s s' l2, symQ M -> psdQ M ->
   runQ M tol b x0 m = (res, h) -> initQ M b x0 :: h = l1 ++ s :: s' :: l2 -> mvQ M xs = b ->
